@@ -332,3 +332,153 @@ Proof.
   intros r c m d d' H1 H2 H3 H4 H5 H6.
   split; [exact (proj1 (ErrsProofs.error_verbatim r c m d d' H1 H2 H3 H4)) | exact (proj1 (data_json_equal_value_partial d d' H4 H5 H6))].
 Qed.
+
+(* ------------------------------------------------------------------------- *)
+(* Part C.1: Client.Batch.  Batch returns the []*Response as they are: Response.Error() is the
+   *Error that came over the wire; filterError (the mapping of the codes -32097 / -32096 to the
+   context sentinels) is applied by Call and by Server.Callback only.  So the entry of a cancelled
+   call is *Error{Code: -32097}, not context.Canceled. *)
+Import Errs ErrsProofs.
+Local Open Scope Z_scope.
+
+Definition batch_outcome (w : wreply) : outcome :=
+  match w with
+  | WResult raw => OResult raw
+  | WError w' => OErr (EJrpc (we_code w') (we_msg w') (we_data w'))
+  | WLost => OLost
+  end.
+
+(* what Batch hands back for the calls cs, one entry per call *)
+Definition batch_outcomes (cs : list (hres * gerr)) : list outcome := map batch_outcome (batch cs).
+
+(* Call is Batch of one, followed by filterError *)
+Definition filter_outcome (o : outcome) : outcome :=
+  match o with
+  | OErr (EJrpc c m d) => OErr (from_wire {| we_code := c; we_msg := m; we_data := d |})
+  | o => o
+  end.
+
+Lemma call_is_filtered_batch r e : call r e = filter_outcome (batch_outcome (deliver (invoke false r e))).
+Proof. rewrite call_deliver. destruct (deliver (invoke false r e)) as [raw|w|]; try reflexivity; destruct w; reflexivity. Qed.
+
+Lemma batch_outcome_nonnil r e : is_nil e = false ->
+  batch_outcome (deliver (invoke false r e)) =
+  OErr (EJrpc (we_code (to_wire e)) (ErrsJson.sanitize_utf8 (we_msg (to_wire e)))
+              (match wire_data (we_data (to_wire e)) with Some d' => d' | None => [] end)).
+Proof.
+  intros H. unfold deliver, deliver_gen, invoke, invoke_gen. rewrite H. cbn [respond andb]. rewrite H.
+  change (transit_gen true) with transit. rewrite transit_total. reflexivity.
+Qed.
+
+(* the code survives, on exactly the domain of Call *)
+Theorem batch_code_preserved : forall r e, is_nil e = false -> code_dom e = true ->
+  outcome_code (batch_outcome (deliver (invoke false r e))) = Some (error_code e).
+Proof.
+  intros r e Hn Hd. rewrite (batch_outcome_nonnil r e Hn). cbn [outcome_code]. rewrite error_code_jrpc.
+  unfold code_dom in Hd. destruct (is_top_jrpc e) eqn:Ht.
+  - destruct e; try discriminate. reflexivity.
+  - rewrite (to_wire_other e Ht). cbn [we_code orb] in *. unfold wire_code.
+    destruct (error_code e =? NoError); [discriminate | reflexivity].
+Qed.
+
+Theorem batch_code_preserved_iff : forall r e, is_nil e = false ->
+  (outcome_code (batch_outcome (deliver (invoke false r e))) = Some (error_code e) <-> code_dom e = true).
+Proof.
+  intros r e Hn. split; [|apply batch_code_preserved; exact Hn]. intros H. unfold code_dom.
+  destruct (is_top_jrpc e) eqn:Ht; [reflexivity|]. cbn [orb].
+  rewrite (batch_outcome_nonnil r e Hn), (to_wire_other e Ht) in H. cbn [outcome_code we_code] in H. rewrite error_code_jrpc in H.
+  unfold wire_code in H. destruct (error_code e =? NoError) eqn:E; [|reflexivity].
+  apply Z.eqb_eq in E. rewrite E in H. discriminate.
+Qed.
+
+(* Batch and Call agree on the code of every entry *)
+Theorem batch_code_is_call_code : forall r e,
+  outcome_code (batch_outcome (deliver (invoke false r e))) = outcome_code (call r e).
+Proof.
+  intros r e. rewrite call_deliver. destruct (deliver (invoke false r e)) as [raw|w|]; try reflexivity.
+  cbn [batch_outcome outcome_code]. rewrite error_code_jrpc, error_code_from_wire. reflexivity.
+Qed.
+
+(* an entry of a batch is never a context sentinel: a cancelled call shows as *Error{-32097} *)
+Theorem batch_entry_never_sentinel : forall r e,
+  batch_outcome (deliver (invoke false r e)) <> OErr ECanceled /\
+  batch_outcome (deliver (invoke false r e)) <> OErr EDeadline.
+Proof. intros r e. destruct (deliver (invoke false r e)) as [raw|w|]; split; discriminate. Qed.
+
+Theorem batch_cancelled_entry : forall r e, first_coder e = None -> reaches false e = true ->
+  batch_outcome (deliver (invoke false r e)) = OErr (EJrpc Cancelled (ErrsJson.sanitize_utf8 (error_text e)) []) /\
+  call r e = OErr ECanceled.
+Proof.
+  intros r e Hc Hr. pose proof (reaches_not_nil _ _ Hr) as Hn. pose proof (no_coder_not_top e Hc) as Ht.
+  split; [|exact (proj1 (sentinels r e Hc) Hr)].
+  rewrite (batch_outcome_nonnil r e Hn), (to_wire_other e Ht). cbn [we_code we_msg we_data wire_data].
+  unfold wire_code. rewrite (error_code_canceled e Hc Hr). reflexivity.
+Qed.
+
+Theorem batch_outcomes_spec : forall cs,
+  batch_outcomes cs = map (fun c => batch_outcome (deliver (invoke false (fst c) (snd c)))) cs /\
+  List.length (batch_outcomes cs) = List.length cs /\ ~ In OLost (batch_outcomes cs).
+Proof.
+  intros cs. unfold batch_outcomes. rewrite batch_members_independent, map_map. split; [reflexivity|]. split; [apply map_length|].
+  intros H. apply in_map_iff in H as (c & Hc & _). pose proof (deliver_never_lost (invoke false (fst c) (snd c))) as Hl.
+  destruct (deliver (invoke false (fst c) (snd c))); try discriminate Hc. contradiction.
+Qed.
+
+Example batch_code_preserved_nonvacuous :
+  batch_outcomes [(ResJson [49]%N, enil); (ResJson [49]%N, ECanceled); (ResJson [49]%N, EJrpc 7 [109]%N [])] =
+  [OResult [49]%N; OErr (EJrpc Cancelled t_canceled []); OErr (EJrpc 7 [109]%N [])] /\
+  call (ResJson [49]%N) ECanceled = OErr ECanceled.
+Proof. split; vm_compute; reflexivity. Qed.
+
+(* ------------------------------------------------------------------------- *)
+(* Part C.2: the callback direction.  A client OnCallback handler's error goes to the server through
+   ClientOptions.handleCallback (opts.go): a *Error as it is, anything else as
+   &Error{Code: ErrorCode(err), Message: err.Error()} - WITHOUT the NoError -> InternalError
+   substitution of the server's tasks.responses; Server.Callback applies filterError. *)
+
+Definition cb_to_wire (e : gerr) : werr :=
+  match e with
+  | EJrpc c m d => {| we_code := c; we_msg := m; we_data := d |}
+  | _ => {| we_code := error_code e; we_msg := error_text e; we_data := [] |}
+  end.
+
+(* what Server.Callback returns when the handler returned the non-nil error e *)
+Definition callback_error (e : gerr) : gerr := from_wire (sent (cb_to_wire e)).
+
+Theorem cb_code_preserved : forall e, is_nil e = false -> error_code (callback_error e) = error_code e.
+Proof.
+  intros e _. unfold callback_error. rewrite error_code_from_wire. destruct e; reflexivity.
+Qed.
+
+(* the wire code is the handler's code, NoError included: the server direction substitutes
+   InternalError there (c14_code_preserved_refuted_noerror_coder), this direction does not *)
+Theorem cb_wire_code : forall e, we_code (sent (cb_to_wire e)) = error_code e.
+Proof. intros e. destruct e; reflexivity. Qed.
+
+Theorem cb_directions_differ :
+  let e := ECoder KValVal NoError [107]%N in
+  is_nil e = false /\ error_code e = NoError /\
+  error_code (callback_error e) = NoError /\ (forall r, outcome_code (call r e) = Some InternalError).
+Proof. split; [reflexivity|]. split; [reflexivity|]. split; [reflexivity|]. intros r. reflexivity. Qed.
+
+Theorem cb_error_verbatim : forall c m d d',
+  c <> Cancelled -> c <> DeadlineExceeded -> ErrsJson.valid_utf8 m = true -> wire_data d = Some d' ->
+  callback_error (EJrpc c m d) = EJrpc c m d'.
+Proof.
+  intros c m d d' H1 H2 H3 H4. unfold callback_error, sent, cb_to_wire. cbn [we_code we_msg we_data]. rewrite H4.
+  rewrite (valid_utf8_sanitize m H3). unfold from_wire. cbn [we_code we_msg we_data].
+  destruct (Z.eqb_spec c Cancelled) as [E|_]; [contradiction|]. destruct (Z.eqb_spec c DeadlineExceeded) as [E|_]; [contradiction|]. reflexivity.
+Qed.
+
+Theorem cb_sentinels : forall e, is_nil e = false ->
+  (callback_error e = ECanceled <-> error_code e = Cancelled) /\
+  (callback_error e = EDeadline <-> error_code e = DeadlineExceeded).
+Proof.
+  intros e _. unfold callback_error. rewrite from_wire_canceled, from_wire_deadline, cb_wire_code. tauto.
+Qed.
+
+Example cb_code_preserved_nonvacuous :
+  callback_error (EWrap [119]%N ECanceled) = ECanceled /\
+  callback_error (EJrpc 7 [109]%N [32; 49]%N) = EJrpc 7 [109]%N [49]%N /\
+  callback_error (EPlain [120]%N) = EJrpc SystemError [120]%N [].
+Proof. repeat split; vm_compute; reflexivity. Qed.
